@@ -5,17 +5,22 @@ EXTENDS Body, Json, SequencesExt
 CONSTANTS MaxEls,     \* bound on body length
           MaxUid,     \* bound on allocated uids
           Depth,      \* behaviour length for generation
-          OpNames     \* subset of operation names explored
+          OpNames,    \* subset of operation names explored
+          TxtC,       \* text classes of the constructors that take a text: subset of {"tok", "empty"}
+          IdxC        \* indexes tried by the positional removals ({} = every index in -1..len+1)
 
 VARIABLES st, hist
 vars == <<st, hist>>
 
-Idx(s) == -1 .. (Len(s.els) + 1)
+Idx(s) == IF IdxC = {} THEN -1 .. (Len(s.els) + 1) ELSE IdxC
 \* handles: every uid ever allocated (live or removed) and 0 = a paragraph of another document
 Handles(s) == 0 .. (s.nxt - 1)
 
 OpsOf(s) ==
-     {[op |-> n] : n \in OpNames \cap (Constructors \cup SectTouchers)}
+     {[op |-> n] : n \in OpNames \cap ((Constructors \ (TextCtors \cup {"AddElement"})) \cup SectTouchers)}
+  \cup {[op |-> n, txt |-> t] : n \in OpNames \cap TextCtors, t \in TxtC}
+  \cup (IF "AddElement" \in OpNames THEN {[op |-> "AddElement", k |-> k] : k \in {"p", "tbl"}} ELSE {})
+  \cup (IF "Read" \in OpNames THEN {[op |-> "Read", what |-> w] : w \in {"paras", "tables"}} ELSE {})
   \cup (IF "RemoveParagraphAt" \in OpNames THEN {[op |-> "RemoveParagraphAt", i |-> i] : i \in Idx(s)} ELSE {})
   \cup (IF "RemoveElementAt" \in OpNames THEN {[op |-> "RemoveElementAt", i |-> i] : i \in Idx(s)} ELSE {})
   \cup (IF "RemoveParagraph" \in OpNames THEN {[op |-> "RemoveParagraph", h |-> h] : h \in Handles(s)} ELSE {})
@@ -51,6 +56,13 @@ Act_RemoveExact ==
         (st' = Apply(st, op) /\ op.op \in Removers) =>
            \/ (Ret(st, op) = "false" /\ st'.els = st.els)
            \/ (Ret(st, op) = "true" /\ \E i \in 1..Len(st.els) : st'.els = RemoveIdx(st.els, i))]_vars
+
+\* reading changes nothing and returns the live elements of the kind, in body order
+Act_ReadPure ==
+  [][\A op \in OpsOf(st) : (op.op \in Readers) =>
+        /\ Apply(st, op) = st
+        /\ \A i \in 1..Len(ReadResult(st, op)) :
+              \E j \in 1..Len(st.els) : st.els[j].u = ReadResult(st, op)[i] /\ st.els[j].k = ReadKind(op)]_vars
 
 \* ---- generation: print each complete behaviour once ----------------------
 Emit == Len(hist) < Depth \/ PrintT(<<"WZCASE", ToJson(hist)>>)
